@@ -5,17 +5,28 @@
   concatenation, followed by `finish` (Ical17) for the last pull, or by `finishEof` (Ical20) for a trailing
   empty push and the last pull.
 
+  Since the repair of over-long lines in `_ical_pull` (a flag `skip` of the parser: "the line under way does
+  not fit the 1 KiB stash, it is passed over as a whole", set by `esccpy` giving up and cleared where the line
+  ends) the equality holds for EVERY input without backslash (`Tidy'`), over-long lines included: the reference
+  automaton keeps the unfolded line in full and drops it at its end if it has `stashSize` = 1024 bytes or more
+  (`flushA`, Ical8; `reference_skips_over_long` below), the parser has (stash, skip) = (the line, false) as
+  long as the line fits and ([], true) from then on, whatever the chunks were (`Rel`, Ical11).  The former
+  condition `LinesShort` (every logical line below 1000 RAW bytes) is gone; `Tidy` is kept as the former
+  hypothesis set and implies `Tidy'` (`chunk_independent_tidy`).  The former witness `raw_matters` (a line of
+  1204 raw bytes unfolding to 2, dropped or not depending on the cut) has become `raw_independent`; an
+  over-long line and a folded line of 1052 raw / 957 unfolded bytes have positive witnesses as well.
+
   Since the repair of the newline mark (a flag `eolp` of the parser instead of a `\001` byte behind a
   NON-EMPTY stash) an empty line whose newline ends a buffer can be continued by a fold in the next buffer
   just as within one buffer.  The former condition `NoFoldOnEmpty` (no fold right after an empty line) is
-  gone from `Tidy`, and its witness `empty_fold_matters` has become `empty_fold_independent`.
+  gone, and its witness `empty_fold_matters` has become `empty_fold_independent`.
 
   Since the stash branch of `_ical_pull` sets `BI = p->bsz` (the buffer is used up) the pre-examination of a
   marked stash by the LAST pull no longer looks at a stale byte of the old buffer: it reads 0 behind the
-  buffer, so a complete last line is always acted upon.  The former condition `LastLinePlain` is gone from
-  `Tidy` as well, and its witnesses `last_line_matters`, `leading_space_matters` have become
-  `last_line_independent`, `leading_space_independent`.  What is left in `Tidy` - no backslash, logical lines
-  that fit the stash - still has a witness each, below.
+  buffer, so a complete last line is always acted upon.  The former condition `LastLinePlain` is gone
+  as well, and its witnesses `last_line_matters`, `leading_space_matters` have become
+  `last_line_independent`, `leading_space_independent`.  What is left - no backslash - still has its witness
+  below (`backslash_matters`).
 
   Since the last pull of the model hands back a cancel or reply as well (verbs `LU`, `LR` next to `L`, as
   `echs_evical_last_pull` does), a trailing empty push differs from the plain protocol in nothing but the mark
@@ -27,18 +38,38 @@ import Echse.Lemmas.Ical20
 namespace C10
 open Echse.Ical
 
-/-! ### the inputs the equality is claimed for
+/-! ### the inputs the equality is claimed for -/
 
-The conditions are phrased over the skeleton `Sc` of the reference automaton (Ical8), which reads the input
-byte by byte and keeps, for the logical (unfolded) line being read: `raw` = number of raw bytes of it so far
-(CRs, fold NL+whitespace and its final NL included), `empty` = no content byte yet (only CRs and folds),
+/-- no backslash (finding D17: `esccpy` keeps the backslash and drops the byte behind it - if that byte is in
+the same buffer).  Nothing else is asked of the input: any bytes, NUL included, lines of any length. -/
+def Tidy' (bs : List Byte) : Prop := ∀ b ∈ bs, b ≠ 92
+
+instance (bs : List Byte) : Decidable (Tidy' bs) := by
+  unfold Tidy'; infer_instance
+
+theorem tidy'_iff_all (bs : List Byte) : Tidy' bs ↔ bs.all (fun b => b != 92) = true := by
+  unfold Tidy'; simp
+
+theorem tidy'_append (x y : List Byte) (hx : Tidy' x) (hy : Tidy' y) : Tidy' (x ++ y) := by
+  intro b hb
+  rcases List.mem_append.1 hb with h | h
+  · exact hx b h
+  · exact hy b h
+
+theorem tidy'_replicate (n : Nat) (c : Byte) (hc : c ≠ 92) : Tidy' (List.replicate n c) := by
+  intro b hb
+  rw [(List.mem_replicate.1 hb).2]; exact hc
+
+/-! The FORMER conditions are phrased over the skeleton `Sc` of the reference automaton (Ical8), which reads the
+input byte by byte and keeps, for the logical (unfolded) line being read: `raw` = number of raw bytes of it so
+far (CRs, fold NL+whitespace and its final NL included), `empty` = no content byte yet (only CRs and folds),
 `pend` = its NL has been read (the line is complete unless SP/TAB follows), `sp` = it contains SP or TAB as a
 content byte (fold whitespace not counted).  `allSc φ {} bs` says `φ state rest` at every position. -/
 
-/-- every logical line takes fewer than 1000 RAW bytes (folds, CRs and NL counted).  Implies that every
-NL-free run and every unfolded line is shorter than 1000.  The raw count is what matters: a line that is only
-partly in the buffer is dropped when `bytes left in the buffer ≥ 1024 - stash fill`, whatever it would
-unfold to (finding D18d; witness below: `raw_matters`). -/
+/-- FORMER conjunct of `Tidy`, no longer needed: every logical line takes fewer than 1000 RAW bytes (folds, CRs
+and NL counted).  The raw count was what mattered: a line only partly in the buffer was dropped when `bytes
+left in the buffer ≥ 1024 - stash fill`, whatever it would unfold to (finding D18d).  Now `esccpy` decides, on
+the unfolded bytes, and the line is dropped as a whole or not at all (`raw_independent`). -/
 def LinesShort (bs : List Byte) : Prop := allSc (fun s _ => decide (s.raw < 1000)) {} bs = true
 
 /-- FORMER conjunct of `Tidy`, no longer needed: if the input ends in a complete non-empty line, that last
@@ -49,13 +80,17 @@ in the stash branch it looks behind the buffer.  Kept to state that the former w
 def LastLinePlain (bs : List Byte) : Prop :=
   ((runSc {} bs).pend && !(runSc {} bs).empty && (runSc {} bs).sp) = false
 
+/-- the FORMER hypothesis set of the theorems below: no backslash, no NUL, short lines -/
 def Tidy (bs : List Byte) : Prop :=
   (∀ b ∈ bs, b ≠ 92) ∧        -- no backslash (finding D17)
   (∀ b ∈ bs, b ≠ 0) ∧         -- no NUL (as asked for; the proof does not use it)
-  LinesShort bs
+  LinesShort bs               -- no longer needed either
 
 instance (bs : List Byte) : Decidable (LastLinePlain bs) := by
   unfold LastLinePlain; infer_instance
+
+instance (bs : List Byte) : Decidable (LinesShort bs) := by
+  unfold LinesShort; infer_instance
 
 instance (bs : List Byte) : Decidable (Tidy bs) := by
   unfold Tidy LinesShort; infer_instance
@@ -69,15 +104,28 @@ theorem allSc_and (φ ψ : Sc → List Byte → Bool) : ∀ (l : List Byte) (s :
 
 theorem tidy_good (bs : List Byte) (h : Tidy bs) : Good {} bs := h.2.2
 
-/-- what `feed` computes on a tidy input, however it is cut -/
-theorem feed_tidy (chunks : List (List Byte)) (hne : ∀ c ∈ chunks, c ≠ []) (hbs : chunks.flatten ≠ [])
-    (ht : Tidy chunks.flatten) :
-    feed chunks = finish (runA {} chunks.flatten) (runA {} chunks.flatten).ins :=
-  feed_spec chunks hne hbs (tidy_good _ ht) ht.1
+/-- the former hypotheses imply the present one -/
+theorem tidy_tidy' (bs : List Byte) (h : Tidy bs) : Tidy' bs := h.1
 
-/-- C10: the instructions produced and the lines acted upon do not depend on the chunking -/
+/-- the reference semantics for a line that does not fit the stash (1024 unfolded bytes or more): when it turns
+out complete it is passed over - nothing is logged, no instruction, the component state stays - and for a line
+that fits nothing has changed (`procA`: `_ical_proc` and the bookkeeping around it) -/
+theorem reference_skips_over_long (A : Abs) :
+    (stashSize ≤ A.cur.length → flushA A = { A with sc := {}, cur := [] }) ∧
+    (A.cur ≠ [] → A.cur.length < stashSize → flushA A = { (procA A) with sc := {} }) ∧
+    stashSize = 1024 :=
+  ⟨flushA_of_over A, flushA_of_ne A, rfl⟩
+
+/-- what `feed` computes on an input without backslash, however it is cut -/
+theorem feed_tidy (chunks : List (List Byte)) (hne : ∀ c ∈ chunks, c ≠ []) (hbs : chunks.flatten ≠ [])
+    (ht : Tidy' chunks.flatten) :
+    feed chunks = finish (runA {} chunks.flatten) (runA {} chunks.flatten).ins :=
+  feed_spec chunks hne hbs ht
+
+/-- C10: the instructions produced and the lines acted upon do not depend on the chunking, for every input
+without backslash - over-long lines included -/
 theorem chunk_independent (bs : List Byte) (chunks : List (List Byte)) (hc : chunks.flatten = bs)
-    (hne : ∀ c ∈ chunks, c ≠ []) (ht : Tidy bs) : feed chunks = feed [bs] := by
+    (hne : ∀ c ∈ chunks, c ≠ []) (ht : Tidy' bs) : feed chunks = feed [bs] := by
   cases hb : bs with
   | nil =>
     cases chunks with
@@ -95,6 +143,32 @@ theorem chunk_independent (bs : List Byte) (chunks : List (List Byte)) (hc : chu
       (by rw [h1]; exact ht)]
     rw [hc, h1]
 
+/-- the invariant behind it: the parser state between two pushes depends on the bytes pushed so far, not on how
+they were cut.  With `A` the reference automaton after those bytes: the mark `eolp` says that the line's NL has
+been read, (`stash`, `skip`) is (the unfolded line so far, false) as long as that fits the stash and ([], true)
+from then on; component state, lines acted upon and instructions are those of `A`; the buffer is used up. -/
+theorem state_independent (chunks : List (List Byte)) (hne : ∀ c ∈ chunks, c ≠ []) (hbs : chunks.flatten ≠ [])
+    (ht : Tidy' chunks.flatten) :
+    ∃ q, chunks.foldl feedStep (none, []) = (some q, (runA {} chunks.flatten).ins) ∧
+      (q.eolp = true ↔ (runA {} chunks.flatten).sc.pend = true) ∧
+      ((runA {} chunks.flatten).cur.length < stashSize → q.skip = false ∧ q.stash = (runA {} chunks.flatten).cur) ∧
+      (stashSize ≤ (runA {} chunks.flatten).cur.length → q.skip = true ∧ q.stash = []) ∧
+      q.comp = (runA {} chunks.flatten).comp ∧ q.log = (runA {} chunks.flatten).log ∧
+      q.buf.drop q.bix = [] := by
+  have hinv := feedFold_inv chunks (none, []) [] (Or.inl ⟨rfl, rfl⟩) hne ht
+  rw [List.nil_append] at hinv
+  cases hinv with
+  | inl h => exact absurd h.1 hbs
+  | inr h =>
+    obtain ⟨q, hq, hpost, hins, _⟩ := h
+    exact ⟨q, Prod.ext hq hins, hpost.rel.mark, hpost.rel.fits, hpost.rel.over, hpost.rel.comp, hpost.rel.log,
+      hpost.done⟩
+
+/-- the former statement (hypotheses `Tidy`: also no NUL, every logical line below 1000 raw bytes) -/
+theorem chunk_independent_tidy (bs : List Byte) (chunks : List (List Byte)) (hc : chunks.flatten = bs)
+    (hne : ∀ c ∈ chunks, c ≠ []) (ht : Tidy bs) : feed chunks = feed [bs] :=
+  chunk_independent bs chunks hc hne (tidy_tidy' bs ht)
+
 /-! ### a trailing empty push (end of the connection)
 
 The daemon pushes an EMPTY buffer when recv() returns 0, drains, and then does the last pull.  An empty push
@@ -111,21 +185,22 @@ line early (`empty_push_in_the_middle_matters`). -/
 theorem feed_leading_empty (chunks : List (List Byte)) : feed ([] :: chunks) = feed chunks := rfl
 
 /-- the input ends in a complete line that completes an event: `END:VEVENT` / `END:VTODO` with its newline,
-in a calendar whose `END:VCALENDAR` has not come -/
+in a calendar whose `END:VCALENDAR` has not come (and the line fits the stash, as any such line does unless a
+NUL and a kilobyte of other bytes follow the keyword) -/
 def EndsInEvent (bs : List Byte) : Prop :=
-  (runA {} bs).sc.pend = true ∧ (runA {} bs).cur ≠ [] ∧
+  (runA {} bs).sc.pend = true ∧ (runA {} bs).cur ≠ [] ∧ (runA {} bs).cur.length < stashSize ∧
     (procLine (runA {} bs).comp (runA {} bs).cur).2 = .ve
 
 instance (bs : List Byte) : Decidable (EndsInEvent bs) := by
   unfold EndsInEvent; infer_instance
 
-/-- what `feed` computes on a tidy input followed by an empty push, however the input is cut -/
+/-- what `feed` computes on an input without backslash followed by an empty push, however the input is cut -/
 theorem feed_tidy_eof (chunks : List (List Byte)) (hne : ∀ c ∈ chunks, c ≠ []) (hbs : chunks.flatten ≠ [])
-    (ht : Tidy chunks.flatten) :
+    (ht : Tidy' chunks.flatten) :
     feed (chunks ++ [[]]) = finishEof (runA {} chunks.flatten) (runA {} chunks.flatten).ins :=
-  feed_spec_eof chunks hne hbs (tidy_good _ ht) ht.1
+  feed_spec_eof chunks hne hbs ht
 
-theorem feed_one (bs : List Byte) (hbs : bs ≠ []) (ht : Tidy bs) :
+theorem feed_one (bs : List Byte) (hbs : bs ≠ []) (ht : Tidy' bs) :
     feed [bs] = finish (runA {} bs) (runA {} bs).ins ∧
     feed [bs, []] = finishEof (runA {} bs) (runA {} bs).ins := by
   have h1 : [bs].flatten = bs := by simp
@@ -146,15 +221,20 @@ theorem chunks_nil_of_flatten (chunks : List (List Byte)) (hc : chunks.flatten =
 /-- C10 for the daemon's protocol (a final empty push, then the last pull): the instructions produced and the
 lines acted upon do not depend on the chunking -/
 theorem chunk_independent_eof (bs : List Byte) (chunks : List (List Byte)) (hc : chunks.flatten = bs)
-    (hne : ∀ c ∈ chunks, c ≠ []) (ht : Tidy bs) : feed (chunks ++ [[]]) = feed [bs, []] := by
+    (hne : ∀ c ∈ chunks, c ≠ []) (ht : Tidy' bs) : feed (chunks ++ [[]]) = feed [bs, []] := by
   by_cases hbs : bs = []
   · rw [hbs] at hc
     rw [chunks_nil_of_flatten chunks hc hne, hbs]; rfl
   · rw [feed_tidy_eof chunks hne (by rw [hc]; exact hbs) (by rw [hc]; exact ht), (feed_one bs hbs ht).2, hc]
 
+/-- the former statement (hypotheses `Tidy`) -/
+theorem chunk_independent_eof_tidy (bs : List Byte) (chunks : List (List Byte)) (hc : chunks.flatten = bs)
+    (hne : ∀ c ∈ chunks, c ≠ []) (ht : Tidy bs) : feed (chunks ++ [[]]) = feed [bs, []] :=
+  chunk_independent_eof bs chunks hc hne (tidy_tidy' bs ht)
+
 /-- the trailing empty push changes nothing in the lines acted upon -/
 theorem eof_lines (bs : List Byte) (chunks : List (List Byte)) (hc : chunks.flatten = bs)
-    (hne : ∀ c ∈ chunks, c ≠ []) (ht : Tidy bs) : (feed (chunks ++ [[]])).2 = (feed [bs]).2 := by
+    (hne : ∀ c ∈ chunks, c ≠ []) (ht : Tidy' bs) : (feed (chunks ++ [[]])).2 = (feed [bs]).2 := by
   by_cases hbs : bs = []
   · rw [hbs] at hc
     rw [chunks_nil_of_flatten chunks hc hne, hbs]; rfl
@@ -163,7 +243,7 @@ theorem eof_lines (bs : List Byte) (chunks : List (List Byte)) (hc : chunks.flat
 
 /-- and nothing at all unless the input ends in a line that completes an event -/
 theorem chunk_independent_eof_plain (bs : List Byte) (chunks : List (List Byte)) (hc : chunks.flatten = bs)
-    (hne : ∀ c ∈ chunks, c ≠ []) (ht : Tidy bs) (hev : ¬ EndsInEvent bs) :
+    (hne : ∀ c ∈ chunks, c ≠ []) (ht : Tidy' bs) (hev : ¬ EndsInEvent bs) :
     feed (chunks ++ [[]]) = feed [bs] := by
   by_cases hbs : bs = []
   · rw [hbs] at hc
@@ -175,7 +255,7 @@ theorem chunk_independent_eof_plain (bs : List Byte) (chunks : List (List Byte))
 instructions up to the mark of the last pull on the verb (`stripL`, Ical20: `L`, `LU`, `LR` read as `S`, `U`,
 `R`); no hypothesis on how the input ends -/
 theorem chunk_independent_eof_modL (bs : List Byte) (chunks : List (List Byte)) (hc : chunks.flatten = bs)
-    (hne : ∀ c ∈ chunks, c ≠ []) (ht : Tidy bs) :
+    (hne : ∀ c ∈ chunks, c ≠ []) (ht : Tidy' bs) :
     ((feed (chunks ++ [[]])).1.map stripL, (feed (chunks ++ [[]])).2) =
       ((feed [bs]).1.map stripL, (feed [bs]).2) := by
   by_cases hbs : bs = []
@@ -193,7 +273,7 @@ theorem stripL_plain : (stripL { verb := "S", lines := [] }).verb = "S" ∧
 
 /-- leading empty pushes and one trailing empty push around a chunking without empty chunks -/
 theorem chunk_independent_eof_lead (bs : List Byte) (chunks : List (List Byte)) (n : Nat)
-    (hc : chunks.flatten = bs) (hne : ∀ c ∈ chunks, c ≠ []) (ht : Tidy bs) :
+    (hc : chunks.flatten = bs) (hne : ∀ c ∈ chunks, c ≠ []) (ht : Tidy' bs) :
     feed (List.replicate n [] ++ chunks) = feed [bs] ∧
     feed (List.replicate n [] ++ (chunks ++ [[]])) = feed [bs, []] := by
   induction n with
@@ -376,7 +456,7 @@ theorem empty_push_in_the_middle_matters :
     (feed [[65, 58, 49, 10], [32, 50, 10]]).2 = [[65, 58, 49, 50]] := by
   decide
 
-/-! ### why `Tidy` has its conjuncts: inputs on which the parse DOES depend on the chunking -/
+/-! ### why `Tidy'` asks for what it asks: an input on which the parse DOES depend on the chunking -/
 
 /-- without `no backslash` (finding D17): `A:\ | n LF` - the byte behind a backslash is skipped only when it is
 in the same buffer -/
@@ -384,15 +464,94 @@ theorem backslash_matters :
     (feed [[65, 58, 92], [110, 10]]).2 = [[65, 58, 92, 110]] ∧ (feed [[65, 58, 92, 110, 10]]).2 = [[65, 58, 92]] := by
   decide
 
-/-- a logical line of 1204 raw bytes that unfolds to 2 (`A:`, 600 CRs, a fold, 600 CRs): every NL-free run
-and every unfolded line is far below 1000, yet the line is dropped when the cut falls in front of its LF -/
+/-! ### long lines: no longer a condition
+
+Three inputs that violate the former conjunct `LinesShort` (1000 raw bytes), each followed by the line `B:1`:
+a line of many raw bytes that unfolds to 2 (the former witness `raw_matters`), a folded line of 1052 raw bytes
+that unfolds to 957 (it fits: acted upon), and a line of 1102 bytes (it does not fit: passed over as a whole).
+Every chunking gives what the single buffer gives (by `chunk_independent`), and for some chunkings - among
+them the cuts in front of the LF and between LF and fold blank, where the former code decided differently -
+the lines acted upon are computed directly. -/
+
+/-- a logical line of 1204 raw bytes that unfolds to 2 (`A:`, 600 CRs, a fold, 600 CRs) -/
 def longLine : List Byte := [65, 58] ++ List.replicate 600 13 ++ [10, 32] ++ List.replicate 600 13
 
+/-- `B:1` with its LF -/
+def lineB : List Byte := [66, 58, 49, 10]
+
+theorem tidy'_lineB : Tidy' ([10] ++ lineB) := by decide
+
+theorem tidy'_longLine : Tidy' (longLine ++ ([10] ++ lineB)) :=
+  tidy'_append _ _ (tidy'_append _ _ (tidy'_append _ _ (tidy'_append _ _ (by decide)
+    (tidy'_replicate _ _ (by decide))) (by decide)) (tidy'_replicate _ _ (by decide))) tidy'_lineB
+
 set_option maxRecDepth 1000000 in
-/-- without the RAW bound of `LinesShort` (bounds on NL-free runs and unfolded lines do not suffice) -/
-theorem raw_matters :
-    (feed [longLine ++ [10, 66, 58, 49, 10]]).2 = [[65, 58], [66, 58, 49]] ∧
-    (feed [longLine, [10, 66, 58, 49, 10]]).2 = [[66, 58, 49]] := by
+/-- formerly `raw_matters`: the line was dropped when the cut fell in front of its LF (1204 raw bytes left in the
+buffer ≥ 1024 - stash fill); now both chunkings act upon `A:` and `B:1` -/
+theorem raw_independent :
+    (feed [longLine ++ ([10] ++ lineB)]).2 = [[65, 58], [66, 58, 49]] ∧
+    (feed [longLine, [10] ++ lineB]).2 = [[65, 58], [66, 58, 49]] ∧
+    ¬ LinesShort (longLine ++ ([10] ++ lineB)) := by
   decide
+
+/-- and so does every other chunking -/
+theorem raw_any_chunking (chunks : List (List Byte)) (hc : chunks.flatten = longLine ++ ([10] ++ lineB))
+    (hne : ∀ c ∈ chunks, c ≠ []) : feed chunks = feed [longLine ++ ([10] ++ lineB)] :=
+  chunk_independent _ chunks hc hne tidy'_longLine
+
+/-- a folded line of 1052 raw bytes (its LF counted) that unfolds to 957: 47 pieces of 20 bytes, each followed
+by LF SP, and a piece of 17 bytes; without its LF -/
+def foldLine : List Byte :=
+  (List.replicate 47 (List.replicate 20 120 ++ [10, 32])).flatten ++ List.replicate 17 120
+
+theorem tidy'_foldLine : Tidy' (foldLine ++ ([10] ++ lineB)) := by
+  refine tidy'_append _ _ (tidy'_append _ _ ?_ (tidy'_replicate _ _ (by decide))) tidy'_lineB
+  intro b hb
+  obtain ⟨l, hl, hbl⟩ := List.mem_flatten.1 hb
+  rw [(List.mem_replicate.1 hl).2] at hbl
+  exact tidy'_append _ _ (tidy'_replicate _ _ (by decide)) (by decide) b hbl
+
+set_option maxRecDepth 1000000 in
+/-- the line fits the stash and is acted upon, in one buffer, cut in the middle of a piece (at 600), cut between
+an LF and its fold blank (at 1033: the stash holds 940 bytes, 18 raw bytes follow), cut in front of the final LF -/
+theorem fold_long_independent :
+    (foldLine ++ [10]).length = 1052 ∧
+    (feed [foldLine ++ ([10] ++ lineB)]).2 = [List.replicate 957 120, [66, 58, 49]] ∧
+    (feed [(foldLine ++ ([10] ++ lineB)).take 600, (foldLine ++ ([10] ++ lineB)).drop 600]).2 =
+      [List.replicate 957 120, [66, 58, 49]] ∧
+    ((foldLine.take 1033).getLast? = some 10 ∧ (foldLine.drop 1033).head? = some 32) ∧
+    (feed [(foldLine ++ ([10] ++ lineB)).take 1033, (foldLine ++ ([10] ++ lineB)).drop 1033]).2 =
+      [List.replicate 957 120, [66, 58, 49]] ∧
+    (feed [foldLine, [10] ++ lineB]).2 = [List.replicate 957 120, [66, 58, 49]] := by
+  decide
+
+theorem fold_long_any_chunking (chunks : List (List Byte)) (hc : chunks.flatten = foldLine ++ ([10] ++ lineB))
+    (hne : ∀ c ∈ chunks, c ≠ []) : feed chunks = feed [foldLine ++ ([10] ++ lineB)] :=
+  chunk_independent _ chunks hc hne tidy'_foldLine
+
+/-- a line of 1102 bytes (`A:` and 1100 times `x`), without its LF -/
+def overLine : List Byte := [65, 58] ++ List.replicate 1100 120
+
+theorem tidy'_overLine : Tidy' (lineB ++ (overLine ++ ([10] ++ lineB))) :=
+  tidy'_append _ _ (by decide) (tidy'_append _ _ (tidy'_append _ _ (by decide) (tidy'_replicate _ _ (by decide)))
+    tidy'_lineB)
+
+set_option maxRecDepth 1000000 in
+/-- the line does not fit the stash: it is passed over as a whole and the lines around it are acted upon - in
+one buffer, cut at 500 (formerly: the first 500 bytes were stashed and the rest dropped with them), cut at 1027
+(the first piece alone does not fit), byte for byte up to 3 and then cut in front of the LF -/
+theorem over_long_independent :
+    (feed [lineB ++ (overLine ++ ([10] ++ lineB))]).2 = [[66, 58, 49], [66, 58, 49]] ∧
+    (feed [(lineB ++ (overLine ++ ([10] ++ lineB))).take 500, (lineB ++ (overLine ++ ([10] ++ lineB))).drop 500]).2 =
+      [[66, 58, 49], [66, 58, 49]] ∧
+    (feed [(lineB ++ (overLine ++ ([10] ++ lineB))).take 1027, (lineB ++ (overLine ++ ([10] ++ lineB))).drop 1027]).2 =
+      [[66, 58, 49], [66, 58, 49]] ∧
+    (feed [lineB, [65], [58], [120], overLine.drop 3, [10] ++ lineB]).2 = [[66, 58, 49], [66, 58, 49]] := by
+  decide
+
+theorem over_long_any_chunking (chunks : List (List Byte))
+    (hc : chunks.flatten = lineB ++ (overLine ++ ([10] ++ lineB))) (hne : ∀ c ∈ chunks, c ≠ []) :
+    feed chunks = feed [lineB ++ (overLine ++ ([10] ++ lineB))] :=
+  chunk_independent _ chunks hc hne tidy'_overLine
 
 end C10
